@@ -1,7 +1,7 @@
 (* C02/Properties.v — property theorems only.  Each is closed by [exact lemma] and followed by
    [Print Assumptions]. *)
 From RM Require Import C08.Model.
-From RM Require Import C02.Model C02.Documented C02.Proofs1 C02.Proofs2 C02.Proofs3 C02.Proofs4 C02.Proofs5 C02.Proofs6 C02.Proofs7.
+From RM Require Import C02.Model C02.Documented C02.Proofs1 C02.Proofs2 C02.Proofs3 C02.Proofs4 C02.Proofs5 C02.Proofs6 C02.Proofs7 C02.Proofs8.
 Open Scope Z_scope.
 
 (* The layouts regenerated from minidump-common/src/format.rs on this run are the documented ones:
@@ -425,4 +425,53 @@ Example c02_nonvacuous_directory :
   raw_stream (repeat 7 86 ++ [1; 2]) d 1299843851 = SOk [7; 7; 7; 7; 7; 7; 1] /\
   raw_stream (repeat 7 86) d 1299843851 = SErr /\ raw_stream [] d 11 = SMissing /\
   stream_vendor 1299843851 = 2 /\ stream_vendor 4294967295 = 3 /\ stream_vendor 10 = 0 /\ is_named 10 = true.
+Proof. vm_compute. repeat split. Qed.
+
+
+(* ------------------------------------------------------------------ round 4: more streams *)
+(* MozSoftErrors (a UTF-8 text), Mac boot args (struct + out-of-line UTF-16 string), and the Crashpad info stream: its
+   simple annotations (dictionary of NUL-terminated UTF-8 strings), the module list, and per module the list annotations,
+   simple annotations and annotation objects (string values, and raw type/value for every other annotation type).
+   Each: serialized at any offset of any file below 4 GiB, in either byte order, whatever surrounds it, the stream's bytes
+   are where the location descriptor says and the reader returns exactly the model (items in file order; keys may repeat) *)
+Theorem c02_more_stream_roundtrips : forall e,
+  sec_ok (enc_raw e) (dec_softerr e) valid_utf8 /\
+  sec_ok (enc_bootargs e) (dec_bootargs e) wf_bootargs /\
+  (forall bound, sec_ok (enc_counted dict_codec e) (counted_body dict_codec bound e) (forallb wf_kv)) /\
+  (forall bound, sec_ok (enc_counted strlist_codec e) (counted_body strlist_codec bound e) (forallb wf_utf8)) /\
+  (forall bound, sec_ok (enc_counted annot_codec e) (counted_body annot_codec bound e) (forallb wf_annot)) /\
+  (forall bound, sec_ok (enc_cmodule_list e) (counted_body cmodule_codec bound e) (forallb wf_cmodule)) /\
+  sec_ok (enc_crashpad e) (dec_crashpad e) wf_crashpad.
+Proof. exact more_stream_roundtrips. Qed.
+Print Assumptions c02_more_stream_roundtrips.
+
+(* directory and stream together: in ANY file that holds a stream section at some offset, with ANY directory whose last
+   entry of type ty points at it (whatever precedes it, duplicates of ty included), get_stream returns the model.
+   With c02_more_stream_roundtrips this covers the streams above wherever a writer places them. *)
+Theorem c02_stream_served : forall (A : Type) (enc : Z -> A -> section) (dec : endian -> list Z -> list Z -> option A)
+    (wf : A -> bool) (a : A) e pre post l1 ty l3,
+  sec_ok enc (dec e) wf -> wf a = true -> 0 < zlen pre -> zlen pre + zlen (snd (enc (zlen pre) a)) <= U32M ->
+  ~ In ty (map fst l3) ->
+  get_stream dec e (pre ++ snd (enc (zlen pre) a) ++ post)
+             (l1 ++ (ty, (fst (enc (zlen pre) a), zlen pre)) :: l3) ty = SOk a.
+Proof. exact stream_served. Qed.
+Print Assumptions c02_stream_served.
+
+Definition ex_crashpad : mcrashpad :=
+  {| cp_version := 1; cp_report := [305419896; 4660; 22136; 1; 2; 3; 4; 5; 6; 7; 8]; cp_client := [0; 0; 0; 0; 0; 0; 0; 0; 0; 0; 255];
+     cp_simple := [([97], [98; 99]); ([97], []); ([195; 169], [226; 152; 131])];
+     cp_modules := [ {| cm_index := 3; cm_version := 1; cm_list := [[120]; []];
+                        cm_simple := [([107], [118])];
+                        cm_objects := [ {| an_name := [110]; an_ty := 1; an_reserved := 0; an_value := inl [240; 157; 132; 158] |};
+                                        {| an_name := [111]; an_ty := 32768; an_reserved := 7; an_value := inr 4294967295 |};
+                                        {| an_name := []; an_ty := 0; an_reserved := 0; an_value := inr 0 |} ] |};
+                     {| cm_index := 0; cm_version := 0; cm_list := []; cm_simple := []; cm_objects := [] |} ] |}.
+Example c02_nonvacuous_crashpad :
+  wf_crashpad ex_crashpad = true /\
+  (let pre := repeat 9 40 in
+   let s := enc_crashpad BE (zlen pre) ex_crashpad in
+   get_stream dec_crashpad BE (pre ++ snd s ++ [1; 2; 3]) [(ST_CrashpadInfoStream, (5, 6)); (ST_CrashpadInfoStream, (fst s, 40))] ST_CrashpadInfoStream
+     = SOk ex_crashpad) /\
+  dec_softerr LE [] [226; 152] = None /\ valid_utf8 [237; 160; 128] = false /\ valid_utf8 [244; 143; 191; 191] = true /\
+  wf_bootargs {| ba_type := 1299841026; ba_args := Some [45; 118; 55357; 56832] |} = true.
 Proof. vm_compute. repeat split. Qed.
